@@ -583,6 +583,18 @@ def r2d(ctx):
             ctx.ok(art, f'{n} colour/fill key subsets: no stored keyword that overrides a caller keyword of another name')
 
 
+def r4(ctx):
+    """making an artist leaves the region, the origin and the caller's keywords as they were (C13.R1 restricted to the
+    as_artist / plot path): an artist method that works in place on `origin` (np.asarray returns the caller's own float
+    array) draws the next outline — the outer one of an annulus, in the same call — somewhere else."""
+    from .c09 import _SubCtx
+    from .c13 import r1 as c13r1
+    sub = _SubCtx(ctx, lambda c: any(k in c for k in ('as_artist', '.plot', '_make_annulus_path', 'define_mpl_kwargs',
+                                                       '_to_mpl_kwargs', '_lower_left_xy', 'as_mpl')))
+    c13r1(sub)
+    sub.flush('no write reaches the region, the origin or the caller\'s keywords on the as_artist / plot path', 'as_artist')
+
+
 RULES = [
     RuleDef('R1', 'artist constructor arguments (8 artists)', r1, 8),
     RuleDef('R2', 'caller kwargs override the visual defaults', r2, 8),
@@ -590,4 +602,5 @@ RULES = [
     RuleDef('R2c', 'every valid visual key is accepted by the artist or dropped', r2c, 3),
     RuleDef('R2d', 'no stored keyword overrides a caller keyword of another name (Patch color vs edgecolor/facecolor)', r2d, 1),
     RuleDef('R3', 'annulus path: guard, hole orientation, roles, delegation', r3, 4),
+    RuleDef('R4', 'as_artist does not modify the region, the origin or the keywords it is given (C13.R1 on the artist path)', r4, 1),
 ]
